@@ -1,5 +1,6 @@
 //! Independent reference implementations (share no code with the `pdf` crate).
 pub mod codec;
+pub mod c20_walk;
 pub mod c10_validate;
 pub mod c19_ref;
 pub mod c06_sec;
